@@ -339,24 +339,24 @@ RELIES = {
     # option runs are shared when they are *equal* (header._find compares options with !=, keys its skip table by hash)
     "C02": dict(wire=["header.SOMEIPSDHeader", "header.SOMEIPSDEntry", "<options>"], enums=["header.SOMEIPSDEntryType"]),
     # "decodable" is what the enums accept
-    "C03": dict(enums=["header.SOMEIPMessageType", "header.SOMEIPReturnCode", "header.SOMEIPSDEntryType"], decorators=True),
+    "C03": dict(enums=["header.SOMEIPMessageType", "header.SOMEIPReturnCode", "header.SOMEIPSDEntryType"]),
     "C05": dict(values=["config.Service"], why="found services and watched filters are keyed by the service description"),
     "C06": dict(values=["sd.EventgroupSubscription"], why="the subscription store is keyed by the subscription"),
     "C09": dict(values=["sd.EventgroupSubscription", "config.Service"], why="a refresh / stop / expiry finds its record by equality of the stored key"),
-    "C10": dict(values=["sd.ServiceInstance"], decorators=True, why="stop_announce_service removes the instance it is given from a list"),
+    "C10": dict(values=["sd.ServiceInstance"], decorators=["sd.ServiceInstance"], why="stop_announce_service removes the instance it is given from a list"),
     "C11": dict(values=["sd.ServiceInstance", "sd.EventgroupSubscription"], why="the announcer asks the instances on its list; the list is edited by list.remove(instance)"),
-    "C12": dict(values=["sd.ServiceInstance", "config.Service"], decorators=True, why="the announcer asks the instances on its list; the list is edited by list.remove(instance)"),
-    "C13": dict(values=["config.Service"], decorators=True, why="watched_services and found_services are keyed by the service description"),
-    "C14": dict(values=["config.Eventgroup"], decorators=True, why="the requested set is a list of (eventgroup, server) pairs edited by list.remove"),
+    "C12": dict(values=["sd.ServiceInstance", "config.Service"], decorators=["sd.ServiceInstance"], why="the announcer asks the instances on its list; the list is edited by list.remove(instance)"),
+    "C13": dict(values=["config.Service"], decorators=["sd.ServiceDiscover"], why="watched_services and found_services are keyed by the service description"),
+    "C14": dict(values=["config.Eventgroup"], decorators=["sd.ServiceSubscriber"], why="the requested set is a list of (eventgroup, server) pairs edited by list.remove"),
     "C15": dict(values=["sd.SendCollector"]),
     "C16": dict(wire=["header.SOMEIPHeader"]),
-    "C17": dict(values=["service.SimpleEventgroup"], wire=["<endpoint-options>"], decorators=True,
+    "C17": dict(values=["service.SimpleEventgroup"], wire=["<endpoint-options>"], decorators=["service.SimpleEventgroup", "service.SimpleService"],
                 why="eventgroups are looked up and tested for truth; the subscriber set is a set of endpoint options"),
-    "C18": dict(wire=["header.SOMEIPHeader"], enums=["header.SOMEIPMessageType", "header.SOMEIPReturnCode"], decorators=True),
+    "C18": dict(wire=["header.SOMEIPHeader"], enums=["header.SOMEIPMessageType", "header.SOMEIPReturnCode"], decorators=["header.SOMEIPHeader", "header.SOMEIPReader"]),
     "C19": dict(values=["config.Service", "config.Eventgroup"], why="the matching laws are stated about the descriptions as they were written"),
     "C20": dict(wire=["header.SOMEIPHeader", "header.SOMEIPSDHeader", "header.SOMEIPSDEntry", "<options>"],
                 enums=["header.SOMEIPMessageType", "header.SOMEIPReturnCode", "header.SOMEIPSDEntryType"]),
-    "C08": dict(decorators=True),
+    "C08": dict(decorators=["service.SimpleEventgroup", "sd.ServiceDiscoveryProtocol", "sd._SessionStorage"]),
 }
 
 
@@ -376,6 +376,10 @@ def audit(run, prog, prop, rule="OM"):
                 value_class(run, prog, rule, q, expect=ALL_FIELDS, why=spec.get("why", "wire objects are equal iff every field is"))
         for eq in spec.get("enums", ()):
             strict_enum(run, prog, rule, eq)
-        if spec.get("decorators"):
+        # (the decorator's own behaviour matters to a property only while a method of the classes its argument reads is
+        # decorated with it)
+        used = [f.qual for f in prog.functions.values() if f.log_exceptions and f.cls is not None and f.cls.qual in spec.get("decorators", ())]
+        if used:
             decorator_model(run, prog, rule)
-    run.floor(f"{rule}-{prop}", len(run.obs) - n0, 1)
+    if spec.get("values") or spec.get("wire") or spec.get("enums"):
+        run.floor(f"{rule}-{prop}", len(run.obs) - n0, 1)
